@@ -4,26 +4,24 @@ import Grexv.Lemmas.SafeR
 import Grexv.Lemmas.EndToEnd
 
 /-
-End to end with repetition conversion (no class option, plain printing, both anchors): the text `Display for RegExp` writes is
-accepted by the model of `Regex::new`, and the compiled pattern matches every non-empty test case in full.
+End to end with repetition conversion (any class options, with or without `-i`, capturing groups, `-e`; plain printing, at least one
+anchor): the text `Display for RegExp` writes is accepted by the model of `Regex::new`, the compiled pattern matches a string in full iff an
+accepting path of the minimised automaton spells it, and it matches every non-empty stored test case.
 -/
 set_option linter.unusedSimpArgs false
 set_option linter.unusedVariables false
 namespace Grexv
 open Spec Dfa
 
-theorem lit_ofStr (as : List Atom) (hne : as ≠ []) (hok : AtomsOK as) (hchr : ∀ a ∈ as, ∃ c, a = Atom.chr c) :
+theorem lit_ofStr (as : List Atom) (hne : as ≠ []) (hok : AtomsOK as) :
     GOK (Grapheme.ofStr (untok as)) ∧ GSem (Grapheme.ofStr (untok as)) := by
   constructor
   · simp only [Grapheme.ofStr, GOK]
-    refine ⟨⟨[as], ⟨by simp, ?_⟩, rfl⟩, Nat.le_refl _, Or.inl ⟨(by first | rfl | trivial), (by first | rfl | trivial), (by first | rfl | trivial), (by first | rfl | trivial)⟩⟩
+    refine ⟨⟨[as], ⟨by simp, ?_⟩, rfl⟩, Nat.le_refl _, Or.inl ⟨(by first | rfl | trivial), (by first | rfl | trivial),
+      (by first | rfl | trivial), (by first | rfl | trivial)⟩⟩
     intro x hx; simp at hx; subst hx; exact ⟨hne, hok⟩
   · simp only [Grapheme.ofStr, GSem]
-    refine ⟨?_, Nat.le_refl _, Or.inl (by first | rfl | trivial)⟩
-    intro s hs a ha
-    simp at hs; subst hs
-    rw [tokens_untok as hok] at ha
-    exact hchr a ha
+    exact ⟨Nat.le_refl _, Or.inl (by first | rfl | trivial)⟩
 
 /-- the widening merge keeps graphemes printable and consistent -/
 theorem lit_widen (a g : Grapheme) (ha : GOK a ∧ GSem a) (hg : GOK g ∧ GSem g) (hc : a.chars = g.chars) (hm : a.max = g.max - 1) :
@@ -42,43 +40,52 @@ theorem lit_widen (a g : Grapheme) (ha : GOK a ∧ GSem a) (hg : GOK g ∧ GSem 
   obtain ⟨⟨ass, hassok, hgc⟩, _, hgcase⟩ := hgok
   have hgb : gmx ≤ 1000 := by
     rcases hgcase with ⟨_, h, _, _⟩ | ⟨_, h, _⟩ <;> omega
-  have hmn : Nat.min amn gmn ≤ amn := Nat.min_le_left _ _
   have hmx : Nat.max amx gmx = gmx := by
     apply Nat.max_eq_right; omega
   have h1 : 1 ≤ Nat.min amn gmn := Nat.le_min.mpr ⟨hamin, hgmin⟩
+  have hmn : Nat.min amn gmn ≤ amn := Nat.min_le_left _ _
   have hlt : Nat.min amn gmn < Nat.max amx gmx := by
-    rw [hmx]; have := hasem.2.1; have := hgsem.2.1; omega
+    rw [hmx]; have := hasem.1; have := hgsem.1; omega
   constructor
   · simp only [GOK]
     exact ⟨⟨ass, hassok, hgc⟩, h1, Or.inr ⟨Or.inl hlt, by rw [hmx]; exact hgb, Or.inl (by first | rfl | trivial)⟩⟩
   · simp only [GSem]
-    exact ⟨hgsem.1, Nat.le_of_lt hlt, Or.inl (by first | rfl | trivial)⟩
+    exact ⟨Nat.le_of_lt hlt, Or.inl (by first | rfl | trivial)⟩
 
-theorem untok_chr (p : Str) : untok (p.map Atom.chr) = p := by
-  induction p with
-  | nil => rfl
-  | cons c r ih => simp [untok, ih]
+/-- the clusters before repetition conversion, for every combination of the class options -/
+theorem preClusters_eq (cfg : Config) (env : Env) (ws : List Str) :
+    preClusters cfg env ws = ws.map fun w => (subPieces (env.segOf w)).map (fun p => Grapheme.ofStr (p.flatMap (convChar cfg))) := by
+  by_cases hf : cfg.charClassFeature = true
+  · simp only [preClusters, List.map_map, hf, ite_true]
+    apply List.map_congr_left
+    intro w _
+    simp only [Function.comp, clusterOfPieces_eq, convertClasses_map]
+  · have hf' : cfg.charClassFeature = false := by simpa using hf
+    simp only [preClusters, Bool.false_eq_true, ite_false, hf']
+    apply List.map_congr_left
+    intro w _
+    simp only [clusterOfPieces_eq]
+    have hflags : cfg.digit = false ∧ cfg.nonDigit = false ∧ cfg.space = false ∧ cfg.nonSpace = false ∧
+        cfg.word = false ∧ cfg.nonWord = false := by
+      simp only [Config.charClassFeature, Bool.or_eq_false_iff] at hf'
+      obtain ⟨⟨⟨⟨⟨⟨⟨a, b⟩, c⟩, d⟩, e⟩, f⟩, _⟩, _⟩ := hf'
+      exact ⟨a, b, c, d, e, f⟩
+    apply List.map_congr_left
+    intro p _
+    rw [flatMap_convChar_noflags cfg (convChar_noflags cfg hflags) p]
 
-theorem piece_vals (p : Str) (h : PieceOK p) :
-    ∃ as, as ≠ [] ∧ AtomsOK as ∧ (∀ a ∈ as, ∃ c, a = Atom.chr c) ∧ p = untok as := by
-  obtain ⟨hne, hbs, hsc⟩ := h
-  refine ⟨p.map Atom.chr, by simpa using hne, ?_, ?_, (untok_chr p).symm⟩
-  · rcases hbs with rfl | hno
-    · exact Or.inl rfl
-    · right
-      intro a ha
-      obtain ⟨c, hc, rfl⟩ := List.mem_map.mp ha
-      exact ⟨fun h92 => hno (h92 ▸ hc), hsc c hc⟩
-  · intro a ha
-    obtain ⟨c, _, rfl⟩ := List.mem_map.mp ha
-    exact ⟨c, rfl⟩
+/-- the values of the cluster of a test case -/
+def valsOf (cfg : Config) (env : Env) (w : Str) : List Str := (subPieces (env.segOf w)).map fun p => p.flatMap (convChar cfg)
 
-/-- the cluster of a test case before repetition conversion (no class option): values spelled by plain code points -/
-theorem cluster_vals (env : Env) (w : Str) (hseg : SegOK env w) :
-    clusterOfPieces (env.segOf w) = (subPieces (env.segOf w)).map Grapheme.ofStr ∧ ValsOK (subPieces (env.segOf w)) := by
-  refine ⟨clusterOfPieces_eq _, ?_⟩
+theorem preCluster_vals (cfg : Config) (env : Env) (w : Str) (hseg : SegOK env w) :
+    (subPieces (env.segOf w)).map (fun p => Grapheme.ofStr (p.flatMap (convChar cfg))) = (valsOf cfg env w).map Grapheme.ofStr ∧
+    ValsOK (valsOf cfg env w) := by
+  refine ⟨by simp [valsOf, List.map_map, Function.comp_def], ?_⟩
   intro v hv
-  exact piece_vals v ((subPieces_ok (env.segOf w) hseg.1).1 v hv)
+  simp only [valsOf, List.mem_map] at hv
+  obtain ⟨p, hp, rfl⟩ := hv
+  obtain ⟨a1, a2⟩ := piece_atomsOK cfg p ((subPieces_ok (env.segOf w) hseg.1).1 p hp)
+  exact ⟨p.map (convAtom cfg), a1, a2, flatMap_convChar cfg p⟩
 
 /-- **S4, the whole cluster** every grapheme of a converted cluster is printable and consistent -/
 theorem convertRepetitions_lit (cfg : Config) (hmr : 1 ≤ cfg.minRep) (ss : List Str) (hv : ValsOK ss) (hlen : ss.length ≤ 1000) :
@@ -89,8 +96,8 @@ theorem convertRepetitions_lit (cfg : Config) (hmr : 1 ≤ cfg.minRep) (ss : Lis
     simp only [Option.getD_none]
     intro g hg
     obtain ⟨s, hs, rfl⟩ := List.mem_map.mp hg
-    obtain ⟨as, hne, hok, hchr, rfl⟩ := hv s hs
-    exact lit_ofStr as hne hok hchr
+    obtain ⟨as, hne, hok, rfl⟩ := hv s hs
+    exact lit_ofStr as hne hok
   | some res =>
     simp only [Option.getD_some]
     exact fun g hg => ⟨(convertRepsAux_inv cfg hmr _ ss res hv hlen hc g hg).1, (convertRepsAux_inv cfg hmr _ ss res hv hlen hc g hg).2.1⟩
@@ -125,153 +132,277 @@ theorem min_struct_lit (cfg : Config) (cls : List Cluster) (hcounts : ∀ cl ∈
   have := ofDfa_wf_S cfg.cap cfg.esc m hlab (dfsOK_of_bounded m hinit hdst) hacyc
   rwa [ofDfa_congr (c1 := cfg) (c2 := cfgPlain cfg.cap cfg.esc) rfl m]
 
-/-- the settings of the end-to-end theorem with repetition conversion: `-r` with positive thresholds, no class option, case-sensitive,
-plain printing (no surrogate pairs, not verbose, no colours), at least one anchor in place; capturing groups and `-e` are free -/
+/-- the settings of the end-to-end theorems with repetition conversion: `-r` with positive thresholds, plain printing (no surrogate
+pairs, not verbose, no colours), at least one anchor in place; class options, `-i`, capturing groups and `-e` are free -/
 structure RepPrint (cfg : Config) : Prop where
   rep : cfg.rep = true
   minRep : 1 ≤ cfg.minRep
-  noClass : cfg.digit = false ∧ cfg.nonDigit = false ∧ cfg.space = false ∧ cfg.nonSpace = false ∧ cfg.word = false ∧ cfg.nonWord = false
-  ci : cfg.ci = false
   sur : cfg.sur = false
   verb : cfg.verb = false
   color : cfg.color = false
   anch : (cfg.noStart && cfg.noEnd) = false
 
-/-- without class options the class-conversion step (which also runs for capturing groups) leaves the clusters as they are -/
-theorem preClusters_noflags (cfg : Config) (h : RepPrint cfg) (env : Env) (ws : List Str) :
-    preClusters cfg env ws = ws.map fun w => clusterOfPieces (env.segOf w) := by
-  simp only [preClusters]
-  split
-  · rw [List.map_map]
-    apply List.map_congr_left
-    intro w _
-    simp only [Function.comp, clusterOfPieces_eq, convertClasses_map]
-    apply List.map_congr_left
-    intro p _
-    rw [flatMap_convChar_noflags cfg (convChar_noflags cfg h.noClass) p]
-  · rfl
+/-- the same without the requirement on the anchors -/
+structure RepPrintNA (cfg : Config) : Prop where
+  rep : cfg.rep = true
+  minRep : 1 ≤ cfg.minRep
+  sur : cfg.sur = false
+  verb : cfg.verb = false
+  color : cfg.color = false
 
-theorem fmtRegExp_repPrint (cfg : Config) (h : RepPrint cfg) (e : Expr) :
-    fmtRegExp cfg e = fmtRegExp (cfgAnch cfg.cap cfg.esc cfg.noStart cfg.noEnd) e := by
+theorem RepPrint.toNA {cfg : Config} (h : RepPrint cfg) : RepPrintNA cfg := ⟨h.rep, h.minRep, h.sur, h.verb, h.color⟩
+
+theorem fmtRegExp_repPrint (cfg : Config) (h : RepPrintNA cfg) (e : Expr) :
+    fmtRegExp cfg e = ciPrefix cfg.ci ++ fmtRegExp (cfgAnch cfg.cap cfg.esc cfg.noStart cfg.noEnd) e := by
   have hb : bodyText cfg e = bodyText (cfgAnch cfg.cap cfg.esc cfg.noStart cfg.noEnd) e :=
     bodyText_congr (c1 := cfg) (c2 := cfgAnch cfg.cap cfg.esc cfg.noStart cfg.noEnd) ⟨rfl, rfl, h.sur, h.verb, h.color⟩ e
-  simp only [fmtRegExp, h.ci, h.verb, h.color, hb, cfgAnch, Bool.false_and, Bool.false_eq_true, ite_false]
-  cases cfg.noStart <;> cases cfg.noEnd <;> rfl
+  cases hci : cfg.ci with
+  | false =>
+    simp only [fmtRegExp, hci, h.verb, h.color, cfgAnch, hb, Bool.and_false, Bool.false_eq_true,
+      ite_false, ciPrefix, List.nil_append, Bool.false_and]
+    cases cfg.noStart <;> cases cfg.noEnd <;> rfl
+  | true =>
+    simp only [fmtRegExp, hci, h.verb, h.color, cfgAnch, hb, Bool.and_false, Bool.false_eq_true,
+      ite_false, ite_true, ciPrefix, Bool.false_and, Comp.flagI, paint, Gen.strFlagI]
+    have hR : ∀ t : Str, replaceChar 12 Gen.strFormFeed (replaceChar 11 Gen.strVerticalTab ([40, 63, 105, 41] ++ t)) =
+        [40, 63, 105, 41] ++ replaceChar 12 Gen.strFormFeed (replaceChar 11 Gen.strVerticalTab t) := by
+      intro t
+      rw [replaceChar_append, replaceChar_append]
+      rfl
+    cases cfg.noStart <;> cases cfg.noEnd <;> simp only [Bool.false_eq_true, ite_false, ite_true, List.append_assoc, List.nil_append, List.append_nil] <;> exact hR _
 
-/-- **the expression `RegExp::from` keeps under `-r` is well-formed for printing** (both anchors in place) -/
+
+/-- the clusters S4 hands to the trie: printable, consistent graphemes with a single count each -/
+theorem rep_clusters_lit (cfg : Config) (hp : RepPrintNA cfg) (env : Env) (ws : List Str) (st : Stages)
+    (h : regExpFrom cfg env ws = .ok st) (hseg : ∀ w ∈ storedCases cfg env ws, SegOK env w)
+    (hlen : ∀ w ∈ storedCases cfg env ws, (subPieces (env.segOf w)).length ≤ 1000) :
+    ∀ cl ∈ st.clusters, LitS cl ∧ ∀ g ∈ cl, g.min = g.max := by
+  obtain ⟨hsorted, hcl, htrie, hmin, hfirst⟩ := from_stages_shape cfg env ws st h
+  change st.sorted = sortCases (storedCases cfg env ws) at hsorted
+  rw [graphemeClusters_rep cfg env _ hp.rep] at hcl
+  rw [preClusters_eq cfg] at hcl
+  have hmem : ∀ w ∈ st.sorted, w ∈ storedCases cfg env ws := fun w hw => by rw [hsorted] at hw; exact (sortCases_mem' _ w).mp hw
+  intro cl hc
+  rw [hcl] at hc
+  simp only [List.map_map, List.mem_map, Function.comp] at hc
+  obtain ⟨w, hw, rfl⟩ := hc
+  have hww := hmem w hw
+  obtain ⟨hceq, hvals⟩ := preCluster_vals cfg env w (hseg w hww)
+  have hl := hlen w hww
+  rw [hceq]
+  have hl' : (valsOf cfg env w).length ≤ 1000 := by simpa [valsOf] using hl
+  refine ⟨convertRepetitions_lit cfg hp.minRep _ hvals hl', ?_⟩
+  apply convertRepetitions_counts
+  intro g hg
+  obtain ⟨s, _, rfl⟩ := List.mem_map.mp hg
+  rfl
+
+/-- **the expression `RegExp::from` keeps under `-r` is well-formed for printing** (an anchor in place: the first candidate) -/
 theorem rep_final_wfs (cfg : Config) (hp : RepPrint cfg) (env : Env) (ws : List Str) (st : Stages)
-    (h : regExpFrom cfg env ws = .ok st) (hseg : ∀ w ∈ ws, SegOK env w)
-    (hlen : ∀ w ∈ ws, (clusterOfPieces (env.segOf w)).length ≤ 1000) : st.finalAst.WFS := by
+    (h : regExpFrom cfg env ws = .ok st) (hseg : ∀ w ∈ storedCases cfg env ws, SegOK env w)
+    (hlen : ∀ w ∈ storedCases cfg env ws, (subPieces (env.segOf w)).length ≤ 1000) : st.finalAst.WFS := by
   obtain ⟨hsorted, hcl, htrie, hmin, hfirst⟩ := from_stages_shape cfg env ws st h
   have hfinal := from_final_anchored cfg env ws st h hp.anch
-  simp only [hp.ci, Bool.false_eq_true, ite_false] at hsorted
-  rw [graphemeClusters_rep cfg env _ hp.rep] at hcl
-  rw [preClusters_noflags cfg hp] at hcl
-  have hmem : ∀ w ∈ st.sorted, w ∈ ws := fun w hw => by rw [hsorted] at hw; exact (sortCases_mem' ws w).mp hw
-  have hall : ∀ cl ∈ st.clusters, LitS cl ∧ ∀ g ∈ cl, g.min = g.max := by
-    intro cl hc
-    rw [hcl] at hc
-    simp only [List.map_map, List.mem_map, Function.comp] at hc
-    obtain ⟨w, hw, rfl⟩ := hc
-    have hww := hmem w hw
-    obtain ⟨hceq, hvals⟩ := cluster_vals env w (hseg w hww)
-    have hl := hlen w hww
-    rw [hceq] at hl ⊢
-    simp only [List.length_map] at hl
-    refine ⟨convertRepetitions_lit cfg hp.minRep _ hvals hl, ?_⟩
-    apply convertRepetitions_counts
-    intro g hg
-    obtain ⟨s, _, rfl⟩ := List.mem_map.mp hg
-    rfl
+  have hall := rep_clusters_lit cfg hp.toNA env ws st h hseg hlen
   obtain ⟨m, hm, hwfs⟩ := min_struct_lit cfg st.clusters (fun cl hc => (hall cl hc).2) (fun cl hc => (hall cl hc).1)
   rw [← htrie, hmin] at hm
   cases hm
   rw [hfinal, hfirst]
   exact hwfs
 
-theorem value_ofStr' (s : Str) : (Grapheme.ofStr s).value = s := by simp [Grapheme.ofStr, Grapheme.value, Grapheme.chars]
+/-- **whichever expression `RegExp::from` keeps under `-r` is well-formed for printing** (any anchors: the first candidate, the expression
+of the unminimised trie, or the plain alternation of the converted clusters) -/
+theorem rep_final_wfs_na (cfg : Config) (hp : RepPrintNA cfg) (env : Env) (ws : List Str) (st : Stages)
+    (h : regExpFrom cfg env ws = .ok st) (hseg : ∀ w ∈ storedCases cfg env ws, SegOK env w)
+    (hlen : ∀ w ∈ storedCases cfg env ws, (subPieces (env.segOf w)).length ≤ 1000) (hws : ws ≠ []) : st.finalAst.WFS := by
+  obtain ⟨hsorted, hcl, htrie, hmin, hfirst⟩ := from_stages_shape cfg env ws st h
+  change st.sorted = sortCases (storedCases cfg env ws) at hsorted
+  have hall := rep_clusters_lit cfg hp env ws st h hseg hlen
+  rcases from_final_three cfg env ws st h with hf | hf | hf
+  · obtain ⟨m, hm, hwfs⟩ := min_struct_lit cfg st.clusters (fun cl hc => (hall cl hc).2) (fun cl hc => (hall cl hc).1)
+    rw [← htrie, hmin] at hm
+    cases hm
+    rw [hf]
+    exact hwfs
+  · obtain ⟨ht, _, _, _⟩ := Dfa.trie_r st.clusters (fun cl hc => (hall cl hc).2)
+    have hlabels : ∀ e ∈ (Dfa.trie st.clusters).edges, GOK e.label ∧ GSem e.label :=
+      Dfa.trie_labels_r (fun g => GOK g ∧ GSem g) lit_widen st.clusters (fun cl hcl g hg => (hall cl hcl).1 g hg)
+    have hlab : LabelsS_S (Dfa.trie st.clusters) := by
+      intro q hqe g hg
+      simp only [List.mem_singleton] at hg
+      subst hg
+      exact hlabels q hqe
+    have hdfs := dfsOK_of_bounded (Dfa.trie st.clusters) (by rw [ht.init0]; exact ht.pos) (fun e he => (ht.lt e he).2)
+    have hacyc : ∀ c w, Dfa.Path (Dfa.trie st.clusters) c w c → w = [] := by
+      intro c w pth
+      apply Classical.byContradiction
+      intro hw
+      have := Dfa.Path.lt_of_ne_nil (fun e he => (ht.lt e he).1) pth hw
+      omega
+    have := ofDfa_wf_S cfg.cap cfg.esc (Dfa.trie st.clusters) hlab hdfs hacyc
+    rw [hf, htrie, ofDfa_congr (c1 := cfg) (c2 := cfgPlain cfg.cap cfg.esc) rfl _]
+    exact this
+  · rw [hf]
+    apply Expr.wf_newAlternation_S
+    · intro e he
+      obtain ⟨c, hc, rfl⟩ := List.mem_map.mp he
+      exact (hall c hc).1
+    · intro hc
+      have hcn : st.clusters = [] := by simpa using hc
+      rw [graphemeClusters_rep cfg env _ hp.rep, preClusters_eq cfg] at hcl
+      rw [hcl] at hcn
+      have hs0 : st.sorted = [] := by simpa using hcn
+      rw [hsorted] at hs0
+      have hws1 : storedCases cfg env ws ≠ [] := by
+        unfold storedCases lowerCases
+        split <;> simpa using hws
+      cases hw : storedCases cfg env ws with
+      | nil => exact hws1 hw
+      | cons a r =>
+        have : a ∈ sortCases (storedCases cfg env ws) := (sortCases_mem' _ a).mpr (by rw [hw]; exact List.mem_cons_self)
+        rw [hs0] at this
+        cases this
 
-theorem subPieces_flatten_values (pieces : List Str) :
-    (((subPieces pieces).map Grapheme.ofStr).map Grapheme.value).flatten = (subPieces pieces).flatten := by
-  rw [List.map_map]
-  congr 1
-  have : (Grapheme.value ∘ Grapheme.ofStr) = id := by funext s; exact value_ofStr' s
-  rw [this, List.map_id]
+/-- a label sequence that carries a cluster spells whatever the cluster spells -/
+theorem carriesL_spellsA (i : Bool) {ls : Word} {cl : Cluster} (h : CarriesL ls cl) : ∀ s, SpellsA i cl s → SpellsA i ls s := by
+  induction h with
+  | nil => intro s hs; exact hs
+  | @cons l g w cl hcar _ ih =>
+    intro s hs
+    obtain ⟨k, u, v, h1, h2, h3, h4, h5⟩ := hs
+    have hga : gAtoms l = gAtoms g := by simp only [gAtoms, hcar.1]
+    exact ⟨k, u, v, Nat.le_trans hcar.2.1 h1, Nat.le_trans h2 hcar.2.2, h3, by rw [hga]; exact h4, ih v h5⟩
 
-/-- **C01 with `-r`, end to end on the model, all inputs**: the returned text is accepted by the model of `Regex::new` and the compiled
-pattern matches every non-empty test case in full -/
-theorem rep_end_to_end (cfg : Config) (hp : RepPrint cfg) (env : Env) (ws : List Str) (st : Stages)
-    (h : regExpFrom cfg env ws = .ok st) (hseg : ∀ w ∈ ws, SegOK env w)
-    (hlen : ∀ w ∈ ws, (clusterOfPieces (env.segOf w)).length ≤ 1000)
-    (t : Str) (ht : t ∈ ws) (hne : t ≠ []) :
-    ∃ P, Spec.parse (fmtRegExp cfg st.finalAst) = some (⟨false, false⟩, P) ∧ Spec.fullMatch false P t = true := by
-  have hwfs := rep_final_wfs cfg hp env ws st h hseg hlen
+/-- the cluster of a stored test case, as atoms -/
+theorem preCluster_tokens (cfg : Config) (env : Env) (w : Str) (hseg : SegOK env w) :
+    (((subPieces (env.segOf w)).map (fun p => Grapheme.ofStr (p.flatMap (convChar cfg)))).map Grapheme.value).flatMap (fun s => tokens s) =
+      w.map (convAtom cfg) := by
+  have hok := subPieces_ok (env.segOf w) hseg.1
+  have hw : w = (subPieces (env.segOf w)).flatten := by rw [hok.2]; exact hseg.2.symm
+  have : ∀ (ps : List Str), (∀ p ∈ ps, PieceOK p) →
+      ((ps.map (fun p => Grapheme.ofStr (p.flatMap (convChar cfg)))).map Grapheme.value).flatMap (fun s => tokens s) =
+        ps.flatten.map (convAtom cfg) := by
+    intro ps
+    induction ps with
+    | nil => intro _; rfl
+    | cons p r ih =>
+      intro hps
+      simp only [List.map_cons, List.flatMap_cons, List.flatten_cons, List.map_append]
+      rw [ih (fun q hq => hps q (List.mem_cons_of_mem _ hq))]
+      congr 1
+      have : (Grapheme.ofStr (p.flatMap (convChar cfg))).value = p.flatMap (convChar cfg) := by
+        simp [Grapheme.ofStr, Grapheme.value, Grapheme.chars]
+      rw [this, flatMap_convChar, tokens_untok _ (piece_atomsOK cfg p (hps p List.mem_cons_self)).2]
+  rw [this _ hok.1, ← hw]
+
+/-- the stored test case `t` is carried: whatever its atoms denote is spelled by a word of the kept expression -/
+theorem rep_carried (cfg : Config) (hp : RepPrintNA cfg) (env : Env) (ws : List Str) (st : Stages)
+    (h : regExpFrom cfg env ws = .ok st) (hseg : ∀ w ∈ storedCases cfg env ws, SegOK env w)
+    (t : Str) (ht : t ∈ storedCases cfg env ws) (hne : t ≠ []) (s : Str) (hs : atomsDen cfg.ci (t.map (convAtom cfg)) s) :
+    st.finalAst.strLangR cfg.ci s := by
   obtain ⟨hsorted, _, _, _, hfirst⟩ := from_stages_shape cfg env ws st h
-  have hfinal := from_final_anchored cfg env ws st h hp.anch
-  simp only [hp.ci, Bool.false_eq_true, ite_false] at hsorted
-  have hts : t ∈ st.sorted := by rw [hsorted]; exact (sortCases_mem' ws t).mpr ht
-  have hmem : ∀ w ∈ st.sorted, w ∈ ws := fun w hw => by rw [hsorted] at hw; exact (sortCases_mem' ws w).mp hw
+  change st.sorted = sortCases (storedCases cfg env ws) at hsorted
+  have hts : t ∈ st.sorted := by rw [hsorted]; exact (sortCases_mem' _ t).mpr ht
+  have hmem : ∀ w ∈ st.sorted, w ∈ storedCases cfg env ws := fun w hw => by rw [hsorted] at hw; exact (sortCases_mem' _ w).mp hw
   have hsegp : ∀ w ∈ st.sorted, ∀ p ∈ env.segOf w, p ≠ [] := fun w hw p hpp => ((hseg w (hmem w hw)).1 p hpp).1
-  -- the cluster of `t`
-  have hpc : clusterOfPieces (env.segOf t) ∈ preClusters cfg env st.sorted := by
-    rw [preClusters_noflags cfg hp]
-    exact List.mem_map_of_mem hts
+  have hpc : (subPieces (env.segOf t)).map (fun p => Grapheme.ofStr (p.flatMap (convChar cfg))) ∈ preClusters cfg env st.sorted := by
+    rw [preClusters_eq cfg]
+    exact List.mem_map_of_mem (f := fun w => (subPieces (env.segOf w)).map (fun p => Grapheme.ofStr (p.flatMap (convChar cfg)))) hts
   obtain ⟨_, hexp, _, _⟩ := rep_pipeline_sound cfg env ws st h hp.rep hsegp _ hpc
-  have hflat : (expandAll (convertRepetitions cfg (clusterOfPieces (env.segOf t)))).flatten = t := by
-    rw [hexp, clusterOfPieces_eq, subPieces_flatten_values, (subPieces_ok (env.segOf t) (hseg t ht).1).2]
-    exact (hseg t ht).2
-  have hcne : convertRepetitions cfg (clusterOfPieces (env.segOf t)) ≠ [] := by
-    intro hnil
-    rw [hnil] at hflat
-    exact hne (by simpa [expandAll] using hflat.symm)
-  obtain ⟨ls, hls, hcar⟩ := rep_final_expr cfg env ws st h hp.rep hsegp _ hpc hcne
-  have hcounts : ∀ g ∈ convertRepetitions cfg (clusterOfPieces (env.segOf t)), g.min = g.max := by
+  have hcounts : ∀ g ∈ convertRepetitions cfg ((subPieces (env.segOf t)).map (fun p => Grapheme.ofStr (p.flatMap (convChar cfg)))),
+      g.min = g.max := by
     apply convertRepetitions_counts
     intro g hg
-    rw [clusterOfPieces_eq] at hg
     obtain ⟨s, _, rfl⟩ := List.mem_map.mp hg
     rfl
-  have hsp := carriesL_spells hcar hcounts
-  rw [hflat] at hsp
-  have hsc : ∀ c ∈ t, Scalar c := by
-    intro c hc
-    rw [← (hseg t ht).2] at hc
-    obtain ⟨p, hpp, hcp⟩ := List.mem_flatten.mp hc
-    exact ((hseg t ht).1 p hpp).2 c hcp
+  have hsp : SpellsA cfg.ci (convertRepetitions cfg ((subPieces (env.segOf t)).map
+      (fun p => Grapheme.ofStr (p.flatMap (convChar cfg))))) s := by
+    rw [spellsA_fixed cfg.ci _ hcounts, hexp, preCluster_tokens cfg env t (hseg t ht)]
+    exact hs
+  have hcne : convertRepetitions cfg ((subPieces (env.segOf t)).map (fun p => Grapheme.ofStr (p.flatMap (convChar cfg)))) ≠ [] := by
+    intro hnil
+    rw [hnil] at hsp
+    simp only [SpellsA] at hsp
+    subst hsp
+    cases t with
+    | nil => exact hne rfl
+    | cons c r => simp [atomsDen] at hs
+  obtain ⟨ls, hls, hcar⟩ := rep_final_expr cfg env ws st h hp.rep hsegp _ hpc hcne
+  exact ⟨ls, hls, carriesL_spellsA cfg.ci hcar s hsp⟩
+
+/-- **C01 with `-r`, end to end on the model, all inputs** (any class options, with or without `-i`): the returned text is accepted by
+the model of `Regex::new`, and the compiled pattern matches in full every string that the atoms of a non-empty stored test case denote —
+the stored test case is the test case itself, or its lower-cased form under `-i`; an atom is the character itself or the class that
+replaced it -/
+theorem rep_end_to_end (cfg : Config) (hp : RepPrint cfg) (env : Env) (ws : List Str) (st : Stages)
+    (h : regExpFrom cfg env ws = .ok st) (hseg : ∀ w ∈ storedCases cfg env ws, SegOK env w)
+    (hlen : ∀ w ∈ storedCases cfg env ws, (subPieces (env.segOf w)).length ≤ 1000)
+    (t : Str) (ht : t ∈ storedCases cfg env ws) (hne : t ≠ []) (s : Str) (hsc : ∀ c ∈ s, Scalar c)
+    (hs : atomsDen cfg.ci (t.map (convAtom cfg)) s) :
+    ∃ P, Spec.parse (fmtRegExp cfg st.finalAst) = some (⟨cfg.ci, false⟩, P) ∧ Spec.fullMatch cfg.ci P s = true := by
+  have hwfs := rep_final_wfs cfg hp env ws st h hseg hlen
+  rw [fmtRegExp_repPrint cfg hp.toNA]
+  obtain ⟨P, hP, hm⟩ := printed_exactAR cfg.ci cfg.cap cfg.esc cfg.noStart cfg.noEnd st.finalAst hwfs s hsc
+  exact ⟨P, hP, hm.mpr (rep_carried cfg hp.toNA env ws st h hseg t ht hne s hs)⟩
+
+/-- **C01 with `-r`, any anchors**: the same when both anchors are disabled, whichever of its three candidates `RegExp::from` keeps -/
+theorem rep_end_to_end_na (cfg : Config) (hp : RepPrintNA cfg) (env : Env) (ws : List Str) (st : Stages)
+    (h : regExpFrom cfg env ws = .ok st) (hseg : ∀ w ∈ storedCases cfg env ws, SegOK env w)
+    (hlen : ∀ w ∈ storedCases cfg env ws, (subPieces (env.segOf w)).length ≤ 1000)
+    (t : Str) (ht : t ∈ storedCases cfg env ws) (hne : t ≠ []) (s : Str) (hsc : ∀ c ∈ s, Scalar c)
+    (hs : atomsDen cfg.ci (t.map (convAtom cfg)) s) :
+    ∃ P, Spec.parse (fmtRegExp cfg st.finalAst) = some (⟨cfg.ci, false⟩, P) ∧ Spec.fullMatch cfg.ci P s = true := by
+  have hws : ws ≠ [] := by
+    intro e
+    rw [e] at ht
+    unfold storedCases lowerCases at ht
+    split at ht <;> simp at ht
+  have hwfs := rep_final_wfs_na cfg hp env ws st h hseg hlen hws
   rw [fmtRegExp_repPrint cfg hp]
-  obtain ⟨P, hP, hm⟩ := printed_exactAR cfg.cap cfg.esc cfg.noStart cfg.noEnd st.finalAst hwfs t hsc
-  exact ⟨P, hP, hm.mpr ⟨ls, hls, hsp⟩⟩
+  obtain ⟨P, hP, hm⟩ := printed_exactAR cfg.ci cfg.cap cfg.esc cfg.noStart cfg.noEnd st.finalAst hwfs s hsc
+  exact ⟨P, hP, hm.mpr (rep_carried cfg hp env ws st h hseg t ht hne s hs)⟩
+
+/-- **validity with `-r`, any anchors**: the returned text is accepted by the model of `Regex::new` for every non-empty list of test cases -/
+theorem rep_valid_na (cfg : Config) (hp : RepPrintNA cfg) (env : Env) (ws : List Str) (st : Stages)
+    (h : regExpFrom cfg env ws = .ok st) (hseg : ∀ w ∈ storedCases cfg env ws, SegOK env w)
+    (hlen : ∀ w ∈ storedCases cfg env ws, (subPieces (env.segOf w)).length ≤ 1000) (hws : ws ≠ []) :
+    ∃ P, Spec.parse (fmtRegExp cfg st.finalAst) = some (⟨cfg.ci, false⟩, P) := by
+  have hwfs := rep_final_wfs_na cfg hp env ws st h hseg hlen hws
+  rw [fmtRegExp_repPrint cfg hp]
+  obtain ⟨P, hP, _⟩ := printed_exactAR cfg.ci cfg.cap cfg.esc cfg.noStart cfg.noEnd st.finalAst hwfs [] (by simp)
+  exact ⟨P, hP⟩
 
 /-- **the language of the `-r` pattern, exactly** (settings of `RepPrint`; at least one non-empty test case): the compiled pattern matches
 a string of scalar values in full iff the minimised automaton has an accepting path whose labels spell it — every label `{m,n}` contributing
-its characters `k` times, `m ≤ k ≤ n` -/
+what its atoms denote `k` times, `m ≤ k ≤ n` -/
 theorem rep_exact (cfg : Config) (hp : RepPrint cfg) (env : Env) (ws : List Str) (st : Stages)
-    (h : regExpFrom cfg env ws = .ok st) (hseg : ∀ w ∈ ws, SegOK env w)
-    (hlen : ∀ w ∈ ws, (clusterOfPieces (env.segOf w)).length ≤ 1000) (hne : ∃ t ∈ ws, t ≠ [])
+    (h : regExpFrom cfg env ws = .ok st) (hseg : ∀ w ∈ storedCases cfg env ws, SegOK env w)
+    (hlen : ∀ w ∈ storedCases cfg env ws, (subPieces (env.segOf w)).length ≤ 1000) (hne : ∃ t ∈ storedCases cfg env ws, t ≠ [])
     (s : Str) (hs : ∀ c ∈ s, Scalar c) :
-    ∃ P, Spec.parse (fmtRegExp cfg st.finalAst) = some (⟨false, false⟩, P) ∧
-      (Spec.fullMatch false P s = true ↔ ∃ ls, st.minimized.LangFrom st.minimized.init ls ∧ Dfa.Spells ls s) := by
+    ∃ P, Spec.parse (fmtRegExp cfg st.finalAst) = some (⟨cfg.ci, false⟩, P) ∧
+      (Spec.fullMatch cfg.ci P s = true ↔ ∃ ls, st.minimized.LangFrom st.minimized.init ls ∧ SpellsA cfg.ci ls s) := by
   have hwfs := rep_final_wfs cfg hp env ws st h hseg hlen
   obtain ⟨hsorted, _, _, _, hfirst⟩ := from_stages_shape cfg env ws st h
+  change st.sorted = sortCases (storedCases cfg env ws) at hsorted
   have hfinal := from_final_anchored cfg env ws st h hp.anch
-  simp only [hp.ci, Bool.false_eq_true, ite_false] at hsorted
-  have hmem : ∀ w ∈ st.sorted, w ∈ ws := fun w hw => by rw [hsorted] at hw; exact (sortCases_mem' ws w).mp hw
+  have hmem : ∀ w ∈ st.sorted, w ∈ storedCases cfg env ws := fun w hw => by rw [hsorted] at hw; exact (sortCases_mem' _ w).mp hw
   have hsegp : ∀ w ∈ st.sorted, ∀ p ∈ env.segOf w, p ≠ [] := fun w hw p hpp => ((hseg w (hmem w hw)).1 p hpp).1
   obtain ⟨_, hlang, hcar⟩ := rep_first_candidate cfg env ws st h hp.rep hsegp
   -- `b[0]` is an expression: some non-empty test case is carried
   obtain ⟨t, ht, htne⟩ := hne
-  have hts : t ∈ st.sorted := by rw [hsorted]; exact (sortCases_mem' ws t).mpr ht
-  have hpc : clusterOfPieces (env.segOf t) ∈ preClusters cfg env st.sorted := by
-    rw [preClusters_noflags cfg hp]
-    exact List.mem_map_of_mem hts
+  have hts : t ∈ st.sorted := by rw [hsorted]; exact (sortCases_mem' _ t).mpr ht
+  have hpc : (subPieces (env.segOf t)).map (fun p => Grapheme.ofStr (p.flatMap (convChar cfg))) ∈ preClusters cfg env st.sorted := by
+    rw [preClusters_eq cfg]
+    exact List.mem_map_of_mem (f := fun w => (subPieces (env.segOf w)).map (fun p => Grapheme.ofStr (p.flatMap (convChar cfg)))) hts
   obtain ⟨_, hexp, _, _⟩ := rep_pipeline_sound cfg env ws st h hp.rep hsegp _ hpc
-  have hflat : (expandAll (convertRepetitions cfg (clusterOfPieces (env.segOf t)))).flatten = t := by
-    rw [hexp, clusterOfPieces_eq, subPieces_flatten_values, (subPieces_ok (env.segOf t) (hseg t ht).1).2]
-    exact (hseg t ht).2
-  have hcne : convertRepetitions cfg (clusterOfPieces (env.segOf t)) ≠ [] := by
+  have hcne : convertRepetitions cfg ((subPieces (env.segOf t)).map (fun p => Grapheme.ofStr (p.flatMap (convChar cfg)))) ≠ [] := by
     intro hnil
-    rw [hnil] at hflat
-    exact htne (by simpa [expandAll] using hflat.symm)
+    rw [hnil] at hexp
+    have h2 := congrArg (fun l => l.flatMap (fun s => tokens s)) hexp
+    rw [preCluster_tokens cfg env t (hseg t ht)] at h2
+    cases t with
+    | nil => exact htne rfl
+    | cons c r => simp [expandAll] at h2
   obtain ⟨w0, hw0, _⟩ := hcar _ hpc hcne
   have hlangE : ∀ ls, st.finalAst.lang ls ↔ st.minimized.LangFrom st.minimized.init ls := by
     intro ls
@@ -279,8 +410,8 @@ theorem rep_exact (cfg : Config) (hp : RepPrint cfg) (env : Env) (ws : List Str)
     cases hb : ((List.range st.minimized.nodes).reverse.foldl (elimStep cfg) (elimInit cfg st.minimized st.minimized.dfs)).b.get 0 with
     | none => rw [hb] at hw0; exact absurd hw0 (by simp [olang])
     | some e => simp [olang]
-  rw [fmtRegExp_repPrint cfg hp]
-  obtain ⟨P, hP, hm⟩ := printed_exactAR cfg.cap cfg.esc cfg.noStart cfg.noEnd st.finalAst hwfs s hs
+  rw [fmtRegExp_repPrint cfg hp.toNA]
+  obtain ⟨P, hP, hm⟩ := printed_exactAR cfg.ci cfg.cap cfg.esc cfg.noStart cfg.noEnd st.finalAst hwfs s hs
   refine ⟨P, hP, ?_⟩
   rw [hm]
   simp only [Expr.strLangR]
@@ -310,23 +441,25 @@ theorem find_items_eolC (i : Bool) (its : List Pat) (hf : ∀ p ∈ its, p.FragC
     | zero => simp only [findFrom, hm]; rw [hst, hl]
     | succ n => simp only [findFrom, hm]; rw [hst, hl]
 
-/-- **C08, the search half, with `-r`** (start anchor disabled, end anchor in place): `Regex::find` on every non-empty test case returns the
-whole test case -/
+/-- **C08, the search half, with `-r`** (start anchor disabled, end anchor in place; any class options, with or without `-i`):
+`Regex::find` on every string that the atoms of a non-empty stored test case denote returns the whole string -/
 theorem rep_find_eol (cfg : Config) (hp : RepPrint cfg) (hns : cfg.noStart = true) (hne' : cfg.noEnd = false)
     (env : Env) (ws : List Str) (st : Stages)
-    (h : regExpFrom cfg env ws = .ok st) (hseg : ∀ w ∈ ws, SegOK env w)
-    (hlen : ∀ w ∈ ws, (clusterOfPieces (env.segOf w)).length ≤ 1000)
-    (t : Str) (ht : t ∈ ws) (hne : t ≠ []) :
-    ∃ P, Spec.parse (fmtRegExp cfg st.finalAst) = some (⟨false, false⟩, P) ∧ Spec.find false P t = some (0, t.length) := by
+    (h : regExpFrom cfg env ws = .ok st) (hseg : ∀ w ∈ storedCases cfg env ws, SegOK env w)
+    (hlen : ∀ w ∈ storedCases cfg env ws, (subPieces (env.segOf w)).length ≤ 1000)
+    (t : Str) (ht : t ∈ storedCases cfg env ws) (hne : t ≠ []) (s : Str) (hsc : ∀ c ∈ s, Scalar c)
+    (hs : atomsDen cfg.ci (t.map (convAtom cfg)) s) :
+    ∃ P, Spec.parse (fmtRegExp cfg st.finalAst) = some (⟨cfg.ci, false⟩, P) ∧ Spec.find cfg.ci P s = some (0, s.length) := by
   have hwfs := rep_final_wfs cfg hp env ws st h hseg hlen
   have hwr := Expr.WFS.toWFR _ hwfs
-  obtain ⟨P, hP, hm⟩ := rep_end_to_end cfg hp env ws st h hseg hlen t ht hne
-  have hP2 := parse_printedAR cfg.cap cfg.esc true false st.finalAst hwr
-  rw [fmtRegExp_repPrint cfg hp, hns, hne'] at hP
+  obtain ⟨P, hP, hm⟩ := rep_end_to_end cfg hp env ws st h hseg hlen t ht hne s hsc hs
+  have hP2 := parse_ci_prefixG _ _ (flags_printedAR cfg.cap cfg.esc true false st.finalAst hwr)
+    (parse_printedAR cfg.cap cfg.esc true false st.finalAst hwr) cfg.ci
+  rw [fmtRegExp_repPrint cfg hp.toNA, hns, hne'] at hP
   rw [hP2] at hP
   simp only [Option.some.injEq, Prod.mk.injEq, true_and] at hP
   subst hP
-  rw [fmtRegExp_repPrint cfg hp, hns, hne']
+  rw [fmtRegExp_repPrint cfg hp.toNA, hns, hne']
   refine ⟨_, hP2, ?_⟩
   have hfr := Expr.bothR_fragC cfg.cap cfg.esc st.finalAst hwr
   have hitems : ∀ p ∈ topItemsR cfg.cap cfg.esc st.finalAst, p.FragC := by
@@ -334,9 +467,59 @@ theorem rep_find_eol (cfg : Config) (hp : RepPrint cfg) (hns : cfg.noStart = tru
     split
     · intro p hp; simp only [List.mem_singleton] at hp; subst hp; exact hfr.2
     · exact hfr.1
-  have hden : denLC false (topItemsR cfg.cap cfg.esc st.finalAst) t :=
-    (fullMatch_items_anchC false true false _ hitems t).mp hm
-  have := find_items_eolC false _ hitems t hden
+  have hden : denLC cfg.ci (topItemsR cfg.cap cfg.esc st.finalAst) s :=
+    (fullMatch_items_anchC cfg.ci true false _ hitems s).mp hm
+  have := find_items_eolC cfg.ci _ hitems s hden
   simpa [preA, postA] using this
+
+/-! ## the literal reading of `SpellsA`: labels without a backslash, case-sensitive -/
+
+theorem tokens_plain : ∀ (s : Str), 92 ∉ s → tokens s = s.map Atom.chr := by
+  intro s
+  unfold tokens
+  induction s with
+  | nil => intro _; rfl
+  | cons c r ih =>
+    intro h
+    have hc : c ≠ 92 := fun e => h (by simp [e])
+    have hr : 92 ∉ r := fun e => h (List.mem_cons_of_mem _ e)
+    simp only [tokensAux, hc, if_false, List.map_cons, ih hr]
+
+theorem gAtoms_plain (l : Grapheme) (h : ∀ s ∈ l.chars, 92 ∉ s) : gAtoms l = l.chars.flatten.map Atom.chr := by
+  unfold gAtoms
+  generalize l.chars = cs at h
+  induction cs with
+  | nil => rfl
+  | cons s r ih =>
+    simp only [List.flatMap_cons, List.flatten_cons, List.map_append]
+    rw [tokens_plain s (h s List.mem_cons_self), ih (fun x hx => h x (List.mem_cons_of_mem _ hx))]
+
+theorem powL_literal (t : Str) : ∀ k u, powL (fun s => s = t) k u ↔ u = (List.replicate k t).flatten
+  | 0, u => by simp [powL]
+  | k + 1, u => by
+    simp only [powL, List.replicate_succ, List.flatten_cons]
+    constructor
+    · rintro ⟨a, b, rfl, ha, hb⟩; rw [(powL_literal t k b).mp hb, ha]
+    · rintro rfl; exact ⟨t, _, rfl, rfl, (powL_literal t k _).mpr rfl⟩
+
+/-- case-sensitive and without a backslash in any label, `SpellsA` is the literal reading: every label `{m,n}` contributes its
+characters `k` times, `m ≤ k ≤ n` -/
+theorem spellsA_literal : ∀ (ls : Word) (s : Str), (∀ l ∈ ls, ∀ x ∈ l.chars, 92 ∉ x) → (SpellsA false ls s ↔ Dfa.Spells ls s)
+  | [], s, _ => by simp [SpellsA, Dfa.Spells]
+  | l :: ls, s, h => by
+    have hl := gAtoms_plain l (h l List.mem_cons_self)
+    have ih := fun v => spellsA_literal ls v (fun x hx => h x (List.mem_cons_of_mem _ hx))
+    have hp : ∀ k u, powL (atomsDen false (gAtoms l)) k u ↔ u = (List.replicate k l.chars.flatten).flatten := by
+      intro k u
+      rw [← powL_literal]
+      apply powL_congr
+      intro s
+      rw [hl]; exact atomsDen_chars _ s
+    simp only [SpellsA, Dfa.Spells]
+    constructor
+    · rintro ⟨k, u, v, h1, h2, rfl, h4, h5⟩
+      exact ⟨k, v, h1, h2, by rw [(hp k u).mp h4], (ih v).mp h5⟩
+    · rintro ⟨k, v, h1, h2, rfl, h5⟩
+      exact ⟨k, _, v, h1, h2, rfl, (hp k _).mpr rfl, (ih v).mpr h5⟩
 
 end Grexv
